@@ -44,9 +44,13 @@ pub enum Traffic {
     /// an HTTP/2 HEADERS block that raises the HPACK table size, inserts ~19 KiB of literal
     /// fields and then fails to decode; endless DATA frames follow, each one re-parsing the stream
     Http2FailingBlockThenData,
+    /// an unfinished head, one stray byte far ahead in sequence space (32 MiB; every 500th
+    /// segment another one even farther, also just below the first payload byte), then small
+    /// in-order segments: work per packet must follow the bytes held, not the sequence distance
+    HttpStraySegmentFarAhead,
 }
 
-pub const ALL: [Traffic; 15] = [
+pub const ALL: [Traffic; 16] = [
     Traffic::HttpHeadNeverCompletes,
     Traffic::HttpPostEndlessBody,
     Traffic::HttpResponseNeverCompletes,
@@ -62,6 +66,7 @@ pub const ALL: [Traffic; 15] = [
     Traffic::HttpPipelinedRequests,
     Traffic::HttpRetransmissionStorm,
     Traffic::Http2FailingBlockThenData,
+    Traffic::HttpStraySegmentFarAhead,
 ];
 
 /// Lazily produces the frames of one long connection.
@@ -122,7 +127,7 @@ impl LongConn {
             Traffic::HttpPipelinedRequests => {
                 s.c_data(b"GET /first HTTP/1.1\r\nHost: example.org\r\nUser-Agent: curl/8.4.0\r\n\r\n");
             }
-            Traffic::HttpRetransmissionStorm => {
+            Traffic::HttpRetransmissionStorm | Traffic::HttpStraySegmentFarAhead => {
                 s.c_data(b"GET /storm HTTP/1.1\r\nHost: example.org\r\nX-Filler: ");
             }
             Traffic::Http2FailingBlockThenData => {
@@ -234,6 +239,21 @@ impl LongConn {
                 let seq = self.s.c_next.wrapping_add(((self.i % 3) as u32) * n as u32);
                 let f = self.s.seg(true, seq, self.s.s_next, flags::ACK | flags::PSH, vec![], &b);
                 self.s.frames.push(f);
+            }
+            Traffic::HttpStraySegmentFarAhead => {
+                if self.i % 500 == 1 {
+                    let far = match (self.i / 500) % 3 {
+                        0 => self.s.c_next.wrapping_add(32 << 20),
+                        1 => self.s.c_next.wrapping_add(0x7000_0000),
+                        // before the first payload byte of the stream (keep-alive style probe)
+                        _ => self.s.c_next.wrapping_sub(0x0100_0000),
+                    };
+                    let f = self.s.seg(true, far, self.s.s_next, flags::ACK, vec![], b"x");
+                    self.s.frames.push(f);
+                } else {
+                    let b = filler(&mut self.r, n.min(200));
+                    self.s.c_data(&b);
+                }
             }
             Traffic::Http2FailingBlockThenData => {
                 let k = n.max(20) - 9;
@@ -440,20 +460,34 @@ pub fn run(ctx: &mut Ctx) {
         }
     }
     // more connections than capacity: retained <= capacity * L
-    for (which, cap) in [(Which::Http, 1usize), (Which::Http, 16), (Which::Tls, 16), (Which::Unified, 16), (Which::Http, 1000)] {
+    // `light`: many connections that each leave one small unfinished piece behind (a fragment of
+    // a ClientHello, the beginning of a head) -- the table, not the buffers, is what could grow
+    for (which, cap, light) in [
+        (Which::Http, 1usize, false),
+        (Which::Http, 16, false),
+        (Which::Tls, 16, false),
+        (Which::Unified, 16, false),
+        (Which::Http, 1000, false),
+        (Which::Tls, 16, true),
+        (Which::Http, 16, true),
+        (Which::Unified, 16, true),
+        (Which::Tls, 4, true),
+    ] {
         idx += 1;
         if !ctx.mine(idx) {
             continue;
         }
-        let conns = if cap == 1000 { 1200u64 } else { (cap as u64 * 4).max(8) };
-        let per = ctx.scale(60, 300, 4);
+        let conns = if light { cap as u64 * ctx.scale(40, 400, 3) } else if cap == 1000 { 1200u64 } else { (cap as u64 * 4).max(8) };
+        let per = if light { 1 } else { ctx.scale(60, 300, 4) };
         let mut runner = Runner::new(which, cap, false);
         let base = alloc::thread_snap();
         let mut max_live = 0i64;
+        let mut live_at_cap = 0i64;
+        let mut max_after_cap = 0i64;
         let mut failed = None;
         'outer: for c in 0..conns {
-            let kind = if which == Which::Tls { Traffic::TlsHugeDeclaredRecord } else { Traffic::HttpHeadNeverCompletes };
-            let mut conn = LongConn::new(kind, 100_000 + c, ctx.seed, 1400);
+            let kind = if which == Which::Tls || (light && which == Which::Unified && c % 2 == 0) { Traffic::TlsHugeDeclaredRecord } else { Traffic::HttpHeadNeverCompletes };
+            let mut conn = LongConn::new(kind, 100_000 + c, ctx.seed, if light { 64 } else { 1400 });
             for f in conn.prelude() {
                 if let Err(p) = runner.feed(scenario::T0, &f) {
                     failed = Some(p);
@@ -469,16 +503,28 @@ pub fn run(ctx: &mut Ctx) {
             }
             let live = alloc::thread_snap().live() - base.live();
             max_live = max_live.max(live);
+            if c + 1 == cap as u64 {
+                live_at_cap = live;
+            } else if c + 1 > cap as u64 {
+                max_after_cap = max_after_cap.max(live);
+            }
         }
         if let Some(p) = failed {
             ctx.judge(false, &[], "panic while driving many connections", || json!({"panic": p}));
             continue;
         }
+        // plateau: once `capacity` connections are held, further connections replace earlier
+        // ones; what is retained must not keep growing with the number of connections seen
+        let plateau_limit = 2 * live_at_cap + 64 * 1024;
+        ctx.judge(max_after_cap <= plateau_limit, &[], "retained memory keeps growing with the number of connections beyond the configured capacity", || {
+            json!({"analyzer": format!("{which:?}"), "capacity": cap, "connections": conns, "segments_per_connection": per,
+                   "retained_after_capacity_connections": live_at_cap, "max_retained_later": max_after_cap, "limit(2x+64KiB)": plateau_limit})
+        });
         let limit = cap as i64 * L;
         ctx.judge(max_live <= limit, &[], "retained memory exceeds capacity x per-connection limit", || {
             json!({"analyzer": format!("{which:?}"), "capacity": cap, "connections": conns, "segments_per_connection": per, "max_retained_bytes": max_live, "limit": limit})
         });
-        ctx.bucket(&format!("capacity/{which:?}/cap{cap}"));
+        ctx.bucket(&format!("capacity/{which:?}/cap{cap}{}", if light { "/light" } else { "" }));
         ctx.class_n(&format!("max_retained_kib/capacity-{which:?}-{cap}"), (max_live.max(0) as u64) / 1024);
     }
     huginn_net_tcp::verif_hooks::clock::clear();
@@ -489,7 +535,7 @@ pub fn spec() -> PropSpec {
         id: "C11",
         run,
         shards: super::shards_16,
-        rule: "one connection of each traffic kind (HTTP head that never completes, POST with endless body, response that never completes, TLS application data after ServerHello / after ClientHello, ClientHello with a 65535-byte record never completed, random bytes in both directions, 1-byte segments, timestamped ACKs) is driven with N segments (quick 2e4, thorough 1e6) of 1400 and 64 payload bytes through the HTTP, TLS, TCP and unified analyzers and through one-worker pools while a counting allocator reads, after every packet, the bytes allocated for it and the bytes still retained; rules: retained <= 1 MiB per connection, allocation per packet <= 4 MiB + 8 x packet length, and with more connections than capacity retained <= capacity x 1 MiB; a bucket is a distinct (path, traffic kind, segment size) or capacity configuration",
+        rule: "one connection of each traffic kind (HTTP head that never completes, POST with endless body, response that never completes, TLS application data after ServerHello / after ClientHello, ClientHello with a 65535-byte record never completed, random bytes in both directions, 1-byte segments, timestamped ACKs) is driven with N segments (quick 2e4, thorough 1e6) of 1400 and 64 payload bytes through the HTTP, TLS, TCP and unified analyzers and through one-worker pools while a counting allocator reads, after every packet, the bytes allocated for it and the bytes still retained; rules: retained <= 1 MiB per connection, allocation per packet <= 4 MiB + 8 x packet length, and with more connections than capacity retained <= capacity x 1 MiB and, after the first `capacity` connections, never more than twice what those retained plus 64 KiB (plateau; also with many connections that each leave only a 64-byte unfinished piece); a bucket is a distinct (path, traffic kind, segment size) or capacity configuration",
         assumptions: &[
             "bytes allocated while handling a packet are the work proxy (re-assembly and re-parsing copy what they process)",
             "limits are generous constants (1 MiB retained per connection, 4 MiB constant work term); growth proportional to history crosses them within the driven length",
